@@ -68,6 +68,7 @@ SecRule ARGS_GET:t|ARGS_GET:u "@streq 1" "id:101,phase:2,pass,log,auditlog,setva
 SecRule ARGS_GET:t|ARGS_GET:u "@streq 1" "id:102,phase:2,pass,nolog,tag:tg,setvar:tx.n102=+1"
 SecRule REQUEST_BODY "@contains attack" "id:103,phase:2,pass,log,setvar:tx.body_seen=1"
 SecRule ARGS_POST:a "@streq 1" "id:104,phase:2,pass,nolog,setvar:tx.post_seen=1"
+SecRule ARGS_GET:ce_off2 "@streq 1" "id:105,phase:2,pass,nolog,ctl:ruleEngine=Off"
 SecRule ARGS_GET:d2 "@streq 1" "id:110,phase:2,deny,status:402,log,auditlog"
 SecRule ARGS_GET:sk2 "@streq 1" "id:111,phase:2,pass,nolog,skip:1"
 SecRule ARGS_GET:ska2 "@streq 1" "id:112,phase:2,pass,nolog,skipAfter:NO_SUCH_MARKER"
@@ -83,7 +84,7 @@ SecAction "id:150,phase:5,pass,nolog,verifdump:p5"
 `
 
 var c05Steers = []string{"cap", "setx", "ce_do", "ce_on", "c_audoff", "c_parts", "c_rba", "c_rbl", "c_sba", "c_sbl", "c_json", "c_force", "c_rm", "c_rmr", "c_rmt", "c_rmtag", "c_fresp", "c_partsm", "c_partsh",
-	"d1", "sk1", "ska1", "al1", "alr1", "alp1", "t", "u", "d2", "sk2", "ska2", "d3", "al3", "d4"}
+	"d1", "sk1", "ska1", "al1", "alr1", "alp1", "t", "u", "ce_off2", "d2", "sk2", "ska2", "d3", "al3", "d4"}
 
 type c05Tx struct {
 	Steer []string `json:"steer"`
